@@ -564,7 +564,7 @@ func (a *Options) Equal(b *Options) bool {
 	}
 	for i, x := range a.injectedFiles {
 		y := b.injectedFiles[i]
-		if x.Source != y.Source || x.DefineName != y.DefineName || len(x.Exports) != len(y.Exports) {
+		if x.Source != y.Source || x.DefineName != y.DefineName || x.IsCopyLoader != y.IsCopyLoader || len(x.Exports) != len(y.Exports) {
 			return false
 		}
 		for j := range x.Exports {
@@ -575,7 +575,9 @@ func (a *Options) Equal(b *Options) bool {
 	}
 
 	// Compare "jsx"
-	if a.jsx.Parse != b.jsx.Parse || !jsxExprsEqual(a.jsx.Factory, b.jsx.Factory) || !jsxExprsEqual(a.jsx.Fragment, b.jsx.Fragment) {
+	if a.jsx.Parse != b.jsx.Parse || a.jsx.Preserve != b.jsx.Preserve || a.jsx.AutomaticRuntime != b.jsx.AutomaticRuntime ||
+		a.jsx.ImportSource != b.jsx.ImportSource || a.jsx.Development != b.jsx.Development || a.jsx.SideEffects != b.jsx.SideEffects ||
+		!jsxExprsEqual(a.jsx.Factory, b.jsx.Factory) || !jsxExprsEqual(a.jsx.Fragment, b.jsx.Fragment) {
 		return false
 	}
 
@@ -598,7 +600,7 @@ func isSameRegexp(a *regexp.Regexp, b *regexp.Regexp) bool {
 }
 
 func jsxExprsEqual(a config.DefineExpr, b config.DefineExpr) bool {
-	if !helpers.StringArraysEqual(a.Parts, b.Parts) {
+	if !helpers.StringArraysEqual(a.Parts, b.Parts) || a.InjectedDefineIndex != b.InjectedDefineIndex {
 		return false
 	}
 
